@@ -424,6 +424,9 @@ def oracle_bytes(ctx, d):
 
 
 def oracle_write(ctx, d, tmp):
+    """OpticalImage.write -> imread returns the same colours: for images holding integer data (exactly) and for images
+    whose data are floats in any of the colour spaces an OpticalImage can be in (RGB, BGR, HSV; within the 8/16-bit
+    quantisation of the file format)"""
     import skimage
 
     for n in range(ctx.pick(300, 3000)):
@@ -433,21 +436,37 @@ def oracle_write(ctx, d, tmp):
         dtype = rnd.choice([np.uint8, np.uint8, np.uint16])
         ext = ".png" if dtype == np.uint8 and rnd.random() < 0.6 else rnd.choice([".tif", ".tiff"])
         arr = r.randint(0, np.iinfo(dtype).max + 1, size=(h, w, 3)).astype(dtype)
-        case = dict(ext=ext, dtype=np.dtype(dtype).name, shape=[h, w, 3])
-        ctx.count(("write", ext, np.dtype(dtype).name, h, w))
-        img = d.OpticalImage(arr.copy(), color_space=rnd.choice(["RGB", "RGB", "BGR"]), dimensions=[1.0, 2.0])
+        held = rnd.choice(["integer", "integer", "float", "float"])
+        space = rnd.choice(["RGB", "RGB", "BGR"]) if held == "integer" else rnd.choice(["RGB", "BGR", "HSV", "HSV"])
+        case = dict(ext=ext, original_dtype=np.dtype(dtype).name, shape=[h, w, 3], data_held_as=held, color_space=space)
+        ctx.count(("write", ext, np.dtype(dtype).name, h, w, held, space))
+        if held == "integer":
+            img = d.OpticalImage(arr.copy(), color_space=space, dimensions=[1.0, 2.0])
+        else:
+            # the way images come out of imread: float data, original dtype remembered; then possibly another colour space
+            img = quiet(lambda: d.OpticalImage(arr.copy(), color_space="RGB", dimensions=[1.0, 2.0]).img_as(float))
+            if not isinstance(img, Raised) and space != "RGB":
+                img = quiet(lambda: img.to_trichromatic(space, return_image=True))
+            if isinstance(img, Raised):
+                continue
+        held_before = img.img.copy()
         p = tmp / f"w_{n % 5}{ext}"
         res = quiet(lambda: (img.write(p), d.imread(p))[1])
+        sig = f"{np.dtype(dtype).name},{held},{space}"
         if isinstance(res, Raised):
-            ctx.fail(f"C18:write-imread({np.dtype(dtype).name},{ext}):raises-{type(res.exc).__name__}", f"write -> imread raises {res.exc!r}", case)
+            ctx.fail(f"C18:write-imread({sig},{ext}):raises-{type(res.exc).__name__}", f"write -> imread raises {res.exc!r}", case)
             continue
-        rgb = img.to_trichromatic("RGB", return_image=True).img
-        want = skimage.img_as_float(rgb)
-        if res.img.shape != want.shape or not np.array_equal(res.img, want):
-            dev = float(np.max(np.abs(res.img - want))) if res.img.shape == want.shape else None
-            ctx.fail(f"C18:write-imread({np.dtype(dtype).name},{ext}):colours", f"colours differ after write -> imread (max deviation {dev})",
-                     dict(case, color_space=img.color_space, max_dev=dev))
-        if not np.array_equal(img.img, arr):
+        rgb = quiet(lambda: img.to_trichromatic("RGB", return_image=True))
+        if isinstance(rgb, Raised):
+            continue
+        want = skimage.img_as_float(rgb.img).astype(np.float64)
+        # integer data: exact; float data: one quantisation step of the file (plus the float32 colour conversion)
+        tol = 0.0 if held == "integer" else 1.5 / (255.0 if dtype == np.uint8 else 65535.0) + 1e-6
+        dev = float(np.max(np.abs(res.img - want))) if res.img.shape == want.shape else None
+        if dev is None or dev > tol:
+            ctx.fail(f"C18:write-imread({sig},{ext}):colours", f"colours differ after write -> imread (max deviation {dev}, allowed {tol:.3g})",
+                     dict(case, max_dev=dev, tolerance=tol, image=np.asarray(img.img).tolist() if img.img.size <= 36 else None))
+        if not np.array_equal(img.img, held_before):
             ctx.fail("C18:write-modifies-image", "OpticalImage.write modified the image", case)
 
 
